@@ -25,5 +25,107 @@ let run (op_full : string) (a : string array) : string =
   | "num_as_i64" -> (match as_i64 (parse_num a.(0)) with Some z -> "ok =" ^ ZA.to_string (zt_of_z z) | None -> "ok =none")
   | "num_as_u64" -> (match as_u64 (parse_num a.(0)) with Some n -> "ok =" ^ ZA.to_string (zt_of_n n) | None -> "ok =none")
   | "num_as_f64" -> "ok =" ^ ZA.format "%016x" (zt_of_n (as_f64 (parse_num a.(0))))
+  | "from_slice" -> show_res show_val (from_slice (unhex a.(0)))
+  | "reencode" -> show_res (fun v -> hex (to_vec v)) (from_slice (unhex a.(0)))
+  | "parse_value" -> show_res show_val (parse_value (unhex a.(0)))
+  | "parse_lazy_value" ->
+      (match parse_lazy_value (unhex a.(0)) with
+       | Ok lv ->
+           let al = match lazy_array_length lv with Ok (Some n) -> ZA.to_string (zt_of_n n) | Ok None -> "none" | _ -> "?" in
+           let tv = match lazy_to_value lv with Ok v -> show_val v | Panic -> "panic" | Err _ -> "err" in
+           "ok " ^ hex (lazy_to_vec lv) ^ "|" ^ al ^ "|" ^ tv
+       | r -> show_res (fun _ -> "") r)
+  | "to_string" -> show_res hex (to_string_m (unhex a.(0)))
+  | "to_pretty_string" -> show_res hex (to_pretty_string_m (unhex a.(0)))
+  | "compare" -> show_res (fun c -> "=" ^ show_cmp c) (compare_api (unhex a.(0)) (unhex a.(1)))
+  | "cmp_value" -> "ok =" ^ show_cmp (cmp_value (parse_val a.(0)) (parse_val a.(1)))
+  | "convert_to_comparable" -> show_res hex (convert_to_comparable_m (unhex a.(0)) prefix)
+  | "array_length" -> show_res (show_opt (fun n -> "=" ^ ZA.to_string (zt_of_n n))) (array_length_m (unhex a.(0)))
+  | "get_by_index" -> show_res (show_opt hex) (get_by_index_m (unhex a.(0)) (n_of_zt (ZA.of_string a.(1))))
+  | "get_by_name" -> show_res (show_opt hex) (get_by_name_m (unhex a.(0)) (unhex a.(1)) (a.(2) = "1"))
+  | "get_by_keypath" -> show_res (show_opt hex) (get_by_keypath_m (unhex a.(0)) (parse_keypaths a.(1)))
+  | "object_keys" -> show_res (show_opt hex) (object_keys_m (unhex a.(0)))
+  | "object_each" ->
+      show_res (show_opt (fun l -> "[" ^ String.concat "|" (List.map (fun (k, v) -> hexs k ^ ":" ^ hex v) l) ^ "]"))
+        (object_each_m (unhex a.(0)))
+  | "array_values" ->
+      show_res (show_opt (fun l -> "[" ^ String.concat "|" (List.map hex l) ^ "]")) (array_values_m (unhex a.(0)))
+  | "type_of" ->
+      show_res (fun n -> "=" ^ (match int_of_n n with 0 -> "null" | 1 -> "boolean" | 2 -> "number" | 3 -> "string" | 4 -> "array" | _ -> "object"))
+        (type_of_m (unhex a.(0)))
+  | "is_null" | "as_null" -> show_res show_bool (as_null_m (unhex a.(0)))
+  | "is_boolean" -> show_res (fun o -> show_bool (o <> None)) (as_bool_m (unhex a.(0)))
+  | "as_bool" -> show_res (show_opt show_bool) (as_bool_m (unhex a.(0)))
+  | "to_bool" -> show_res show_bool (to_bool_m (unhex a.(0)))
+  | "is_number" -> show_res (fun o -> show_bool (o <> None)) (as_number_m (unhex a.(0)))
+  | "as_number" -> show_res (show_opt (fun x -> "=" ^ show_num x)) (as_number_m (unhex a.(0)))
+  | "is_i64" -> show_res (fun o -> show_bool (o <> None)) (as_i64_m (unhex a.(0)))
+  | "as_i64" -> show_res (show_opt (fun z -> "=" ^ ZA.to_string (zt_of_z z))) (as_i64_m (unhex a.(0)))
+  | "to_i64" -> show_res (fun z -> "=" ^ ZA.to_string (zt_of_z z)) (to_i64_m (unhex a.(0)))
+  | "is_u64" -> show_res (fun o -> show_bool (o <> None)) (as_u64_m (unhex a.(0)))
+  | "as_u64" -> show_res (show_opt (fun n -> "=" ^ ZA.to_string (zt_of_n n))) (as_u64_m (unhex a.(0)))
+  | "to_u64" -> show_res (fun n -> "=" ^ ZA.to_string (zt_of_n n)) (to_u64_m (unhex a.(0)))
+  | "is_f64" -> show_res (fun o -> show_bool (o <> None)) (as_f64_m (unhex a.(0)))
+  | "as_f64" -> show_res (show_opt (fun n -> "=" ^ ZA.format "%016x" (zt_of_n n))) (as_f64_m (unhex a.(0)))
+  | "to_f64" -> show_res (fun n -> "=" ^ ZA.format "%016x" (zt_of_n n)) (to_f64_m (unhex a.(0)))
+  | "is_string" -> show_res (fun o -> show_bool (o <> None)) (as_str_m (unhex a.(0)))
+  | "as_str" -> show_res (show_opt hex) (as_str_m (unhex a.(0)))
+  | "to_str" -> show_res hex (to_str_m (unhex a.(0)))
+  | "is_array" -> show_res show_bool (is_array_m (unhex a.(0)))
+  | "is_object" -> show_res show_bool (is_object_m (unhex a.(0)))
+  | "exists_all_keys" -> show_res show_bool (exists_all_keys_m (unhex a.(0)) (hexlist a.(1)))
+  | "exists_any_keys" -> show_res show_bool (exists_any_keys_m (unhex a.(0)) (hexlist a.(1)))
+  | "traverse_check_string" -> show_res show_bool (traverse_check_string_m (unhex a.(0)) (unhex a.(1)))
+  | "contains" -> show_res show_bool (contains_m (unhex a.(0)) (unhex a.(1)))
+  | "array_distinct" -> show_buf prefix (array_distinct_m (unhex a.(0)) prefix)
+  | "array_intersection" -> show_buf prefix (array_intersection_m (unhex a.(0)) (unhex a.(1)) prefix)
+  | "array_except" -> show_buf prefix (array_except_m (unhex a.(0)) (unhex a.(1)) prefix)
+  | "array_overlap" -> show_res show_bool (array_overlap_m (unhex a.(0)) (unhex a.(1)))
+  | "concat" -> show_buf prefix (concat_m (unhex a.(0)) (unhex a.(1)) prefix)
+  | "delete_by_name" -> show_buf prefix (delete_by_name_m (unhex a.(0)) (unhex a.(1)) prefix)
+  | "delete_by_index" -> show_buf prefix (delete_by_index_m (unhex a.(0)) (z_of_zt (ZA.of_string a.(1))) prefix)
+  | "delete_by_keypath" -> show_buf prefix (delete_by_keypath_m (unhex a.(0)) (parse_keypaths a.(1)) prefix)
+  | "array_insert" -> show_buf prefix (array_insert_m (unhex a.(0)) (z_of_zt (ZA.of_string a.(1))) (unhex a.(2)) prefix)
+  | "object_insert" -> show_buf prefix (object_insert_m (unhex a.(0)) (unhex a.(1)) (unhex a.(2)) (a.(3) = "1") prefix)
+  | "object_delete" -> show_buf prefix (object_delete_m (unhex a.(0)) (hexlist a.(1)) prefix)
+  | "object_pick" -> show_buf prefix (object_pick_m (unhex a.(0)) (hexlist a.(1)) prefix)
+  | "strip_nulls" -> show_buf prefix (strip_nulls_m (unhex a.(0)) prefix)
+  | "build_array" -> show_buf prefix (build_array_m (hexlist a.(0)) prefix)
+  | "build_object" -> show_buf prefix (build_object_m (hexlist a.(0)) (hexlist a.(1)) prefix)
+  | "select" -> show_sel prefix (select_m (unhex a.(0)) (parse_jsonpath a.(1)) (mode_of a.(2)) prefix)
+  | "sel_exists" -> show_res show_bool (sel_exists_m (unhex a.(0)) (parse_jsonpath a.(1)))
+  | "sel_predicate_match" -> show_res show_bool (sel_predicate_match_m (unhex a.(0)) (parse_jsonpath a.(1)))
+  | "get_by_path" -> show_sel prefix (get_by_path_m (unhex a.(0)) (parse_jsonpath a.(1)) prefix)
+  | "get_by_path_first" -> show_sel prefix (get_by_path_first_m (unhex a.(0)) (parse_jsonpath a.(1)) prefix)
+  | "get_by_path_array" -> show_sel prefix (get_by_path_array_m (unhex a.(0)) (parse_jsonpath a.(1)) prefix)
+  | "path_exists" -> show_res show_bool (path_exists_m (unhex a.(0)) (parse_jsonpath a.(1)))
+  | "path_match" -> show_res show_bool (path_match_m (unhex a.(0)) (parse_jsonpath a.(1)))
+  | "parse_json_path" ->
+      show_res (fun ps -> show_paths ps ^ " " ^ hex (show_json_path float_placeholder ps)) (parse_json_path (unhex a.(0)))
+  | "print_json_path" -> "ok " ^ hex (show_json_path float_placeholder (parse_jsonpath a.(0)))
+  | "print_parse_json_path" ->
+      let text = show_json_path float_placeholder (parse_jsonpath a.(0)) in
+      (match parse_json_path text with
+       | Ok ps -> "ok " ^ show_paths ps ^ " " ^ hex text
+       | Err _ -> "err Other " ^ hex text
+       | Panic -> "panic")
+  | "print_parse_key_paths" ->
+      let text = show_key_paths (parse_keypaths a.(0)) in
+      (match parse_key_paths text with
+       | Ok ks -> "ok " ^ show_keypaths ks ^ " " ^ hex text
+       | Err _ -> "err Other " ^ hex text
+       | Panic -> "panic")
+  | "parse_key_paths" ->
+      show_res (fun ks -> show_keypaths ks ^ " " ^ hex (show_key_paths ks)) (parse_key_paths (unhex a.(0)))
+  | "print_key_paths" -> "ok " ^ hex (show_key_paths (parse_keypaths a.(0)))
+  | "to_serde_json" -> show_res show_sj (to_serde_json_m (unhex a.(0)))
+  | "to_serde_json_object" -> show_res (show_opt show_sj) (to_serde_json_object_m (unhex a.(0)))
+  | "value_to_serde" -> show_res show_sj (value_to_serde (parse_val a.(0)))
+  | "serde_to_value" -> "ok " ^ show_val (serde_to_value (parse_sj a.(0)))
+  | "serde_roundtrip" ->
+      let v = parse_val a.(0) in
+      (match value_to_serde v with
+       | Ok j -> let back = serde_to_value j in "ok " ^ show_val back ^ " " ^ show_bool (value_eqb back v)
+       | r -> show_res (fun _ -> "") r)
   | _ -> "unknown-op " ^ op
 
